@@ -12,12 +12,6 @@ Section D.
   Variable d : vtypes.
 
   (* ---------- fuel ---------- *)
-  Definition node_size (n : vnode) : nat := match n with VRefs inner => length inner | _ => 0 end.
-  Fixpoint weight (dd : vtypes) (seen : list tname) : nat :=
-    match dd with
-    | [] => 0
-    | (t, (_, n)) :: r => (if memn t seen then 0 else S (node_size n)) + weight r seen
-    end.
   Definition subset (s1 s2 : list tname) : Prop := forall x, memn x s1 = true -> memn x s2 = true.
 
   Lemma weight_mono dd s1 s2 : subset s1 s2 -> weight dd s2 <= weight dd s1.
@@ -154,3 +148,18 @@ Section D.
     (In lo (fst (leaves fuel d alts own [])) <-> AltLeaf d alts own lo).
   Proof. intros Hf. split; [apply leaves_sound|apply leaves_complete; exact Hf]. Qed.
 End D.
+
+(* the fuel the model runs with covers the walk from the root and from every registered type *)
+Lemma node_size_le_weight d : forall t ex n, In (t, (ex, n)) d -> node_size n <= weight d [].
+Proof.
+  induction d as [|[t' [ex' n']] r IH]; intros t ex n H; [inversion H|]. cbn [weight memn]. destruct H as [E|H].
+  - inversion E; subst. lia.
+  - specialize (IH t ex n H). lia.
+Qed.
+Theorem proj_fuel_enough d root : (forall alts, snd root = VRefs alts -> length alts + weight d [] < proj_fuel d root) /\
+  (forall t ex alts, In (t, (ex, VRefs alts)) d -> length alts + weight d [] < proj_fuel d root).
+Proof.
+  unfold proj_fuel. split.
+  - intros alts E. rewrite E. cbn [node_size]. lia.
+  - intros t ex alts H. pose proof (node_size_le_weight d t ex (VRefs alts) H) as Hn. cbn [node_size] in Hn. lia.
+Qed.
